@@ -33,7 +33,8 @@ HAND = ["%Y-%m-%d", "%d/%m/%Y", "%m/%d/%Y", "%Y/%m/%d %H:%M:%S", "%d.%m.%Y %H:%M
         "%d-%b-%Y", "%A, %d %B %Y", "%a %b %d %H:%M:%S %Y", "%Y-%m-%dT%H:%M:%S", "%Y-%m-%d %H:%M:%S.%f", "%I:%M %p %d/%m/%Y",
         "%d/%m/%y", "%y%m%d", "%Y%m%d", "%Y%m%d%H%M%S", "%B %Y", "%b %Y", "%m/%Y", "%Y", "%Y %H:%M", "%d %B", "%B %d", "%d/%m",
         "%H:%M", "%H:%M:%S", "%I:%M %p", "%I %p", "%H:%M:%S.%f", "%d %b", "%A %d %B", "%j %Y", "%Y-%j", "%Y %j %H:%M",
-        "%d %B %Y %I:%M:%S %p", "%y-%m-%d", "%m-%d-%y %H:%M", "%S.%f", "%d %m %Y"]
+        "%d %B %Y %I:%M:%S %p", "%y-%m-%d", "%m-%d-%y %H:%M", "%S.%f", "%d %m %Y",
+        "%Y-%m-%d %H:%M:%S,%f", "%d.%m.%Y %H.%M.%S.%f", "%m/%d/%Y %I.%M.%S.%f %p", "%d %B %Y %H:%M:%S,%f"]
 
 
 def directives(fmt):
@@ -201,9 +202,12 @@ def formats(draw):
     if tparts:
         if out:
             out += draw(st.sampled_from([" ", "T", " at ", ", "]))
+        # the separators inside the clock time are drawn too ('14.05.09,250000', '14h05'): a format is whatever its author wrote
+        tsep = draw(st.sampled_from([":", ":", ":", ".", "-", "h"]))
+        fsep = draw(st.sampled_from([".", ".", ",", " "]))
         for i, p in enumerate(tparts):
             if i:
-                out += "." if p == "%f" else " " if p == "%p" else ":"
+                out += fsep if p == "%f" else " " if p == "%p" else tsep
             out += p
     return out
 
